@@ -70,7 +70,9 @@ def honest_from_log(log, inp):
     for e in log:
         if e[0] == 'mac':
             name = {'blake2b': 'blake2b', 'hmac384': 'hmac_sha384'}[e[1]]
-            h['mac'].append((name, e[2], e[3], e[4]))
+            # only MAC queries keyed with a key derived from the secret key are oracle queries of the functionality
+            # (a MAC keyed with public data, e.g. the v1 nonce derivation HMAC(n, m), is something the adversary computes himself)
+            if secret_derived(e[2], inp.K): h['mac'].append((name, e[2], e[3], e[4]))
         elif e[0] == 'sign':
             name = {'ed25519': 'ed25519_verify', 'p384': 'p384_ecdsa_verify_sha384', 'rsa': 'rsa_pss_sha384_verify'}[e[1]]
             h['sign'].append((name, inp.PK, e[3]))
